@@ -195,6 +195,18 @@ def run(tier, seed):
                 if f not in seen:
                     seen.add(f)
                     items.append((lab + '-mutated', f))
+    # the largest messages the framing admits: well-formed and malformed UPDATEs of 4095 and 4096 octets, a 4096-octet
+    # NOTIFICATION / ROUTE-REFRESH body / OPEN
+    for total in (4095, 4096):
+        for origin, lab in ((b'\x00', 'max-size-update'), (b'\x07', 'max-size-update-bad-origin')):
+            fixed = attr(0x40, 1, origin) + attr(0x40, 2, struct.pack('!BBI', 2, 1, 65002)) + attr(0x40, 3, b'\x0a\x00\x00\x02')
+            padlen = total - 19 - 4 - len(fixed) - 4 - 4
+            pad = struct.pack('!BBH', 0xD0, 99, padlen) + bytes((i * 7) & 255 for i in range(padlen))
+            f = wire.frame(wire.UPDATE, update_body(b'', fixed + pad, b'\x18\x0a\x01\x01'))
+            assert len(f) == total, len(f)
+            items.append(('%s-%d' % (lab, total), f))
+        for ty in (1, 3, 5):
+            items.append(('type%d-max-size-%d' % (ty, total), wire.frame(ty, bytes((i * 11) & 255 for i in range(total - 19)))))
     tasks = []
     for state in STATES:
         sub = items if state in ('established', 'opensent', 'established-hold0') or tier == 'thorough' else items[::4]
@@ -219,7 +231,7 @@ def run(tier, seed):
         'hostile_frames': len(items), 'seeds': len(corpus), 'mutated_seeds': len(mut_seeds), 'session_states': list(STATES),
         'explanation': 'hostile pool = every byte string of the unit tests and the reference messages, plus all single-octet mutations '
                        '(0x00, 0xFF, ^0x80, +1, -1) and all truncations of %d seeds, each framed correctly as the body of message types '
-                       '1, 2, 3, 5, 128 and as the value of attribute types %s inside an UPDATE; delivered in %d session states on the real '
+                       '1, 2, 3, 5, 128 and as the value of attribute types %s inside an UPDATE, plus well-formed / malformed messages of 4095 and 4096 octets; delivered in %d session states on the real '
                        'objects under a step budget; followed by a known-good suite (KEEPALIVE, IPv4 / IPv6 / flowspec UPDATE, ROUTE-REFRESH) '
                        'compared with a pristine agent; closed sessions run the C02 recovery continuation. States that cannot receive bytes '
                        '(stopped, closing) are outside the environment model (DESIGN 3.3).' % (len(mut_seeds), list(WRAP_TYPES), len(STATES)),
